@@ -170,11 +170,41 @@ class Snapshot(object):
         return out
 
     def fingerprint(self):
-        """Cheap comparable view of the current state (for write-point detection)."""
+        """Cheap comparable view of the current state (for write-point detection): per object
+        the identities of its attribute values, in storage order, slots included."""
+        plan = getattr(self, '_fp_plan', None)
+        if plan is None:
+            plan = []
+            for name, o, before in self.state:
+                slots = []
+                if not isinstance(o, type):
+                    for klass in type(o).__mro__:
+                        sl = klass.__dict__.get('__slots__', ())
+                        if isinstance(sl, str):
+                            sl = (sl,)
+                        for n in sl:
+                            desc = klass.__dict__.get(n)
+                            if desc is not None and hasattr(desc, '__get__'):
+                                slots.append(desc)
+                plan.append((o, isinstance(o, type), tuple(slots)))
+            self._fp_plan = plan
         fp = []
-        for name, o, before in self.state:
-            now = _own_dict(o)
-            fp.append(tuple(sorted((str(k), id(v)) for k, v in now.items())))
+        for o, is_type, slots in plan:
+            if is_type:
+                d = type.__getattribute__(o, '__dict__')
+            else:
+                try:
+                    d = object.__getattribute__(o, '__dict__')
+                except AttributeError:
+                    d = None
+            if d is not None:
+                fp.append(tuple(map(id, d.values())))
+                fp.append(len(d))
+            for desc in slots:
+                try:
+                    fp.append(id(desc.__get__(o, type(o))))
+                except AttributeError:
+                    fp.append(0)
         return tuple(fp)
 
 
